@@ -17,6 +17,41 @@ class C05(OutstationProp):
         out = self.cases_session(rng, n // 2, focus=None)
         out += self.cases_series(rng, n // 4)
         out += self.cases_unsol_wait(rng, n // 4)
+        out += self.cases_deferred_repeat(rng, 40 if tier == "quick" else 800)
+        return out
+
+    def cases_deferred_repeat(self, rng, n):
+        """a READ deferred during an unsolicited confirm wait is answered when the series ends; if that answer asks
+        for a confirm, a retransmission of the READ during the SOLICITED confirm wait must be echoed as the very
+        fragment sent before - IIN bits (restart, class, broadcast, application) and a forced CON included
+        (seeded change C05_c: the remembered response lacked what write_solicited merged into the header)"""
+        out = []
+        for i in range(n):
+            cfg = {"unsol": 1, "soltx": rng.choice([249, 2048]), "confirm_ms": 1000, "retries": "0", "retry_delay_ms": 500,
+                   "sel": 0, "op": 0, "decode": rng.below(4), "evbuf": 50, "appiin": rng.choice([0, 0, 1, 6, 15])}
+            ops = [("add", "binary", 0, 1), ("add", "analog", 1, 2)]
+            seq = rng.below(16)
+            ops.append(("rx", MASTER, "none", hexs(frag(0, FN["confirm"], uns=True))))
+            ops.append(("rx", MASTER, "none", hexs(frag(seq, FN["enable"], read_classes((1, 2, 3)))))); seq = (seq + 1) & 15
+            if rng.chance(1, 3):
+                ops.append(("rx", MASTER, "none", hexs(frag(seq, FN["write"], write_iin(7, 0))))); seq = (seq + 1) & 15   # restart bit cleared
+            for k in range(rng.range(1, 3)):
+                ops.append(("update", "binary", 0, str(k & 1 ^ 1), 1, 100 + k))
+            req = frag(seq, FN["read"], read_classes(rng.choice([(1, 2, 3), (1,), (1, 2, 3, 0)])))
+            ops.append(("rx", MASTER, "none", hexs(req)))                  # deferred
+            if rng.chance(1, 4):
+                ops.append(("rx", MASTER, rng.choice(["mand", "opt"]), hexs(frag(rng.below(16), FN["record"]))))
+                ops.append(("rx", MASTER, "none", hexs(req)))              # the broadcast cancelled the deferral: send it again
+            if rng.chance(3, 4):
+                ops.append(("sleep", 1001))                                # unsolicited confirm timeout: READ answered with the events
+            else:
+                ops.append(("rx", MASTER, "none", hexs(frag(1, FN["confirm"], uns=True))))
+            for _ in range(rng.range(1, 2)):
+                ops.append(("rx", MASTER, "none", hexs(req)))              # retransmitted during the solicited confirm wait
+            if rng.chance(1, 2):
+                ops.append(("rx", MASTER, "none", hexs(frag(seq, FN["confirm"]))))
+            sid = "c05_d_%d" % i
+            out.append(Case(sid, script_text(sid, "outstation", cfg, ops), {"kind": "deferred-repeat", "cfg": cfg}))
         return out
 
     def cases_unsol_wait(self, rng, n):
